@@ -5,12 +5,13 @@ use std::{
 
 use super::{
     reader::{CompressedDataReader, LiteralDataReader, SignatureManyReader},
+    types::MAX_NESTING_DEPTH,
     DebugBufRead, MessageReader, PacketBodyReader,
 };
 use crate::{
     armor::{BlockType, DearmorOptions},
     composed::{message::Message, shared::is_binary, Edata, Esk, SignaturePacket},
-    errors::{bail, format_err, unimplemented_err, Result},
+    errors::{bail, ensure, format_err, unimplemented_err, Result},
     packet::{ProtectedDataConfig, SymEncryptedProtectedDataConfig},
     parsing_reader::BufReadParsing,
     types::{PkeskVersion, SkeskVersion, Tag},
@@ -342,7 +343,13 @@ impl<'a> Message<'a> {
         Message::internal_from_bytes(source, is_nested)
     }
 
-    fn internal_from_bytes(source: MessageReader<'a>, is_nested: bool) -> Result<Self> {
+    fn internal_from_bytes(mut source: MessageReader<'a>, is_nested: bool) -> Result<Self> {
+        ensure!(
+            source.nesting_depth() <= MAX_NESTING_DEPTH,
+            "message is nested more than {} layers deep",
+            MAX_NESTING_DEPTH
+        );
+
         let packets = crate::packet::PacketParser::new(source);
 
         match MessageParser::new(packets, is_nested).run()? {
